@@ -893,6 +893,9 @@ class Analyzer:
                 if ob.startswith('&') or base.startswith('&'):
                     continue      # distinct named objects
                 del env[k]
+            cse = env.get('$cse')
+            if cse and any(any(x.endswith(tail) for x in d) for (_, d) in cse.values()):
+                env['$cse'] = {t: (v_, d) for t, (v_, d) in cse.items() if not any(x.endswith(tail) for x in d)}
         if isinstance(val, V) and sym and (sym in val.le or sym in val.lt):
             val = val.copy(le=val.le - {sym}, lt=val.lt - {sym})
         if isinstance(val, V) and isinstance(val.tag, str) and val.tag.startswith('fresh0'):
@@ -978,8 +981,11 @@ class Analyzer:
         if z:
             env['$uninit'] = frozenset(x for x in z if not x.startswith(p))
         cse = env.get('$cse')
-        if cse and any(p in d for (_, d) in cse.values()):
-            env['$cse'] = {t: (v_, d) for t, (v_, d) in cse.items() if p not in d}
+        if cse:
+            def _hit(d_):
+                return any(x == p or x.startswith(p + '->') or x.startswith(p + '.') or x.startswith(p + '[') for x in d_)
+            if any(_hit(d) for (_, d) in cse.values()):
+                env['$cse'] = {t: (v_, d) for t, (v_, d) in cse.items() if not _hit(d)}
         eq = env.get('$eq')
         if eq and any(a.startswith(p) or b.startswith(p) for a, b in eq.items()):
             env['$eq'] = {a: b for a, b in eq.items() if not a.startswith(p) and not b.startswith(p)}
@@ -1477,6 +1483,9 @@ class Analyzer:
         eq = env.get('$eq')
         if eq and any(hit(a) or hit(b) for a, b in eq.items()):
             env['$eq'] = {a: b for a, b in eq.items() if not hit(a) and not hit(b)}
+        cse = env.get('$cse')
+        if cse and any(any(hit(x) for x in d) for (_, d) in cse.values()):
+            env['$cse'] = {t: (v_, d) for t, (v_, d) in cse.items() if not any(hit(x) for x in d)}
 
     def lib_call(self, env, e, name, args, avals):
         nd = self.ex[e]
@@ -1696,6 +1705,32 @@ class Analyzer:
             return None
         return out
 
+    def _pure_locs(self, e, env):
+        """location keys an arithmetic expression over locals, constants and scalar fields reads (`pos-vf->pcm_offset`), or
+        None: the memo entry lives until one of them is stored or havocked"""
+        out = set()
+        st = [self.F.strip_casts(e)]
+        while st:
+            n = st.pop()
+            nd = self.ex[n]
+            k = nd['k']
+            if k == 'int':
+                continue
+            if k == 'cast' or (k == 'bin' and nd['op'] in ('+', '-', '*')):
+                st += [c for c in nd['c'] if c]
+                continue
+            if k == 'ref' and nd['decl']['kind'] in ('var', 'param') and 'extent' not in nd['decl'] and nd['decl']['id'] not in self.alias:
+                out.add(f'v{nd["decl"]["id"]}')
+                continue
+            if k == 'member' and int_type_range(nd.get('t', '')):
+                key = self.path(n, env)
+                if key is None or '[' in key:
+                    return None
+                out.add(key)
+                continue
+            return None
+        return out
+
     def _remember_expr(self, env, e, val):
         """a branch refined the value of the arithmetic expression e (`if(j+k+off<N)`): an identical expression evaluated
         later, before any of its variables is assigned, has that value"""
@@ -1703,7 +1738,7 @@ class Analyzer:
         nd = self.ex[e]
         if nd['k'] != 'bin' or nd['op'] not in ('+', '-', '*'):
             return
-        deps = self._pure_locals(e)
+        deps = self._pure_locals(e) or self._pure_locs(e, env)
         if not deps:
             return
         cse = dict(env.get('$cse') or {})
